@@ -337,7 +337,10 @@ func (er *encRun) roundTrip(stream string, t *target, m protoreflect.Message, fl
 			res.Count("model_skipped_large_document") // a list literal of that length overflows coqc's stack; the oracle still runs
 		} else if dpan == nil {
 			pf, pt := literalTables(o.Out)
-			er.em.cf.Terms = append(er.em.cf.Terms, fmt.Sprintf("CRound %s %s %s %s %s %s %s %s %s %s %s", t.Name, codecgen.BytesTerm(t.Env.Root), msgTerm(m),
+			if !inTheoremShape(t.Env) {
+				res.Count("env_outside_theorem_hypotheses_exposed_oneof_in_flattened_object")
+			}
+			er.em.cf.Terms = append(er.em.cf.Terms, fmt.Sprintf("CRound %s %s %s %s %s %s %s %s %s %s %s %s", t.Name, vh.BoolTerm(inTheoremShape(t.Env)), codecgen.BytesTerm(t.Env.Root), msgTerm(m),
 				facts.floatsTerm(), facts.innersTerm(), pf, pt, vh.BoolTerm(facts.maxMap <= 1), codecgen.BytesTerm(string(o.Out)), backTerm,
 				vh.BoolTerm(facts.kinds["any"] == 0))) // messages are compared with dec's model unless an Any is inside (its j5_json is stored in another canonical spelling)
 			res.Cases = append(res.Cases, vh.CaseRec{Case: caseNo, Stream: stream, Input: in, Impl: map[string]any{"out": short(o.Out), "decode_err": fmt.Sprint(derr)}})
@@ -388,7 +391,7 @@ const maxModelOut = 2600
 func runC01(cfg *vh.Config) error {
 	res := vh.NewResult("C01", cfg.Seed)
 	res.Rule = "representable messages (valid UTF-8, finite floats, defined enum numbers, years 0001-9999 with real calendar days, timestamps 0001-9999 with nanos in range, well-formed decimals, Any with known types) of test.schema.v1.FullSchema and related roots and of generated dynamic descriptors; integer boundaries, escapes / controls / non-BMP text, every oneof arm, maps, arrays, nesting depth 1-5, optional-with-zero; encoded with the real codec, decoded into a fresh message, compared with the two allowances (decimals numerically, empty flattened sub-object = absent; Any by type and payload). Library streams: ParseInt, byteValueFromString, time.Parse, DateFromString, the float round-trip law of strconv. non-trivial = distinct (type, message) other than the empty message"
-	targets, err := loadTargets()
+	targets, nFixed, err := loadTargets(cfg, res)
 	if err != nil {
 		return err
 	}
@@ -435,6 +438,16 @@ func runC01(cfg *vh.Config) error {
 		m := t.New()
 		g.fill(m, 1)
 		er.roundTrip("message", t, m, flats[t])
+	}
+	// messages of the schemas generated for this run (compiled j5s packages, raw descriptors)
+	if gen := targets[nFixed:]; len(gen) > 0 {
+		for i := 0; i < cfg.Scale(300, 12000); i++ {
+			t := vh.Pick(r, gen)
+			g := &msgGen{r: r, maxDepth: r.Range(1, 4), fieldPct: vh.Pick(r, []int{20, 40, 70}), maxEntries: r.Range(1, 3), emptySubs: vh.Pick(r, []int{0, 10, 30})}
+			m := t.New()
+			g.fill(m, 1)
+			er.roundTrip("generated-schema", t, m, flats[t])
+		}
 	}
 	libParsers(cfg, er)
 	res.Evaluations = em.caseNo
